@@ -11,14 +11,17 @@ mod verif_dump {
 
   #[test]
   fn verif_dump_templates() {
-    let memp = 0x1122334455667788usize as *const MemoryAreas;
+    // a real memory image, in case an emitter consults it at translation time
+    let areas = Box::new(MemoryAreas::with_rom(vec![0u8; 16].into_boxed_slice()));
+    let memp = &*areas as *const MemoryAreas;
     let e = Emitter::new(memp);
     println!();
     println!("ADDR read_byte {:016x}", crate::mem::memory_read_byte as usize);
     println!("ADDR write_byte {:016x}", crate::mem::memory_write_byte as usize);
     println!("ADDR read_word {:016x}", crate::mem::memory_read_word as usize);
     println!("ADDR write_word {:016x}", crate::mem::memory_write_word as usize);
-    println!("ADDR mem {:016x}", 0x1122334455667788usize);
+    println!("ADDR push_word {:016x}", crate::mem::memory_push_word as usize);
+    println!("ADDR mem {:016x}", memp as usize);
     let mut buf = [0u8; 1024];
     let n = Emitter::write_prelude_function(&mut buf);
     println!("PROLOGUE {}", hex(&buf[..n]));
